@@ -270,7 +270,7 @@ def shapes(tier, seed):
                 p_fmt = [st for st in prog if st[0] not in ('align', 'mute', 'unmute')]
             S.append(PrettyShape(f'{fmt}:{bits}bit:{seed}:{i}', prog={'main.asm': p_fmt},
                                  cfgargs=dict(origin=Sym('o0', 0, hi), consts=consts, address_bits=bits),
-                                 props=['C16'], binary=True, start=Sym('o0', 0, hi), pretty=fmt, width=48))
+                                 props=['C16'], binary=True, fill=Sym('wf', -300, 300), start=Sym('o0', 0, hi), pretty=fmt, width=48))
     # hand-written: muted region, include, zero-length lines
     hand = {
         'muted': [('data', '.byte', [C(1), ('lsb', V('v2'))]), ('mute',), ('label', 'm'), ('data', '.2byte', [L('m')]),
@@ -283,16 +283,16 @@ def shapes(tier, seed):
         for fmt in fmts:
             S.append(PrettyShape(f'{fmt}:hand:{name}', prog={'main.asm': prog},
                                  cfgargs=dict(origin=Sym('o0', 0, 0x7000), consts={'v2': c02.SYMS['v2'], 'o0': (0, 0x7000)}),
-                                 props=['C16'], binary=True, start=Sym('o0', 0, 0x7000), pretty=fmt, width=48))
+                                 props=['C16'], binary=True, fill=Sym('wf', -300, 300), start=Sym('o0', 0, 0x7000), pretty=fmt, width=48))
     S.append(PrettyShape('minhex:hand:align-gap', prog={'main.asm': [('instr', 'nop', None), ('align', C(8)), ('data', '.byte', [C(7)])]},
-                         cfgargs=dict(origin=0, consts={}), props=['C16'], binary=True, start=0, pretty='minhex', width=48))
+                         cfgargs=dict(origin=0, consts={}), props=['C16'], binary=True, fill=Sym('wf', -300, 300), start=0, pretty='minhex', width=48))
     for fmt in fmts:
         S.append(PrettyShape(f'{fmt}:hand:org-then-include', prog={
             'main.asm': [('label', 'a'), ('data', '.byte', [C(1), C(2)]), ('label', 'b'), ('instr', 'nop', None), ('label', 'c'),
                          ('org', ('+', V('o0'), C(0x20)), None), ('include', 'inc.asm'), ('data', '.byte', [C(9)])],
             'inc.asm': [('data', '.byte', [('lsb', V('v2')), C(7)]), ('instr', 'nop', None)]},
             cfgargs=dict(origin=Sym('o0', 0, 0x7000), consts={'v2': c02.SYMS['v2'], 'o0': (0, 0x7000)}),
-            props=['C16'], binary=True, start=Sym('o0', 0, 0x7000), pretty=fmt, width=48))
+            props=['C16'], binary=True, fill=Sym('wf', -300, 300), start=Sym('o0', 0, 0x7000), pretty=fmt, width=48))
     # an origin set inside a muted region still places the unmuted bytes that follow it
     for fmt in fmts:
         S.append(PrettyShape(f'{fmt}:hand:org-in-muted-region', prog={'main.asm': [
@@ -300,7 +300,7 @@ def shapes(tier, seed):
             ('data', '.byte', [C(7), C(8)]), ('instr', 'nop', None), ('mute',), ('org', ('+', V('o0'), C(0x40)), None),
             ('label', 'm'), ('unmute',), ('data', '.2byte', [L('m')])]},
             cfgargs=dict(origin=Sym('o0', 0, 0x7000), consts={'v2': c02.SYMS['v2'], 'o0': (0, 0x7000)}),
-            props=['C16'], binary=True, start=Sym('o0', 0, 0x7000), pretty=fmt, width=48))
+            props=['C16'], binary=True, fill=Sym('wf', -300, 300), start=Sym('o0', 0, 0x7000), pretty=fmt, width=48))
     # bytes that come from the ISA configuration (predefined data blocks) are in the image, hence in every format
     for fmt in fmts:
         blocks = [('blk', Sym('ba', 0x110, 0x112), 3, 0x5A), ('blk2', 0x130, 18, Sym('bv', 0, 255))]
@@ -310,11 +310,11 @@ def shapes(tier, seed):
         S.append(PrettyShape(f'{fmt}:hand:predefined-data', prog={
             'main.asm': [('data', '.byte', [C(1), ('lsb', V('v2'))]), ('instr', 'nop', None)]},
             cfgargs=dict(origin=org, consts={'v2': c02.SYMS['v2']}, data_blocks=blocks),
-            props=['C16'], binary=True, start=0x100 if org == 0x100 else 0, pretty=fmt, width=48))
+            props=['C16'], binary=True, fill=Sym('wf', -300, 300), start=0x100 if org == 0x100 else 0, pretty=fmt, width=48))
     for fmt in fmts:
         S.append(PrettyShape(f'{fmt}:hand:include', prog={
             'main.asm': [('data', '.byte', [C(1)]), ('include', 'inc.asm'), ('label', 'b'), ('data', '.2byte', [L('b'), L('i')])],
             'inc.asm': [('label', 'i'), ('instr', 'ld8', ('lsb', V('v2'))), ('instr', 'nop', None)]},
             cfgargs=dict(origin=Sym('o0', 0, 0x7000), consts={'v2': c02.SYMS['v2'], 'o0': (0, 0x7000)}),
-            props=['C16'], binary=True, start=Sym('o0', 0, 0x7000), pretty=fmt, width=48))
+            props=['C16'], binary=True, fill=Sym('wf', -300, 300), start=Sym('o0', 0, 0x7000), pretty=fmt, width=48))
     return S
